@@ -47,7 +47,7 @@ def st_rstart(draw):
 
 @st.composite
 def st_rop(draw, extra=()):
-    o = draw(st.sampled_from(['append', 'append', 'iterappend', 'trunc', 'trunc', 'mode', 'reopen', 'read', 'ctx', 'failappend', 'sibling', 'recreate', 'iterappend2d'] + list(extra)))
+    o = draw(st.sampled_from(['append', 'append', 'iterappend', 'trunc', 'trunc', 'mode', 'reopen', 'read', 'ctx', 'failappend', 'sibling', 'recreate', 'iterappend2d', 'fillmax'] + list(extra)))
     if o == 'append':
         return {'o': 'append', 'item': draw(st_item())}
     if o == 'iterappend':
@@ -77,6 +77,8 @@ def st_rop(draw, extra=()):
     if o == 'failappend':
         return {'o': 'failappend', 'items': [draw(st_item()) for _ in range(draw(st.integers(0, 3)))],
                 'kind': draw(st.sampled_from(['raise', 'badatom', 'unconv'])), 'gen': draw(st.booleans())}
+    if o == 'fillmax':
+        return {'o': 'fillmax', 'seed': draw(st.integers(0, 2 ** 31))}
     if o == 'recreate':
         return {'o': 'recreate', 'how': draw(st.sampled_from(['delete_raggedarray', 'rmtree']))}
     if o == 'iterappend2d':
@@ -458,6 +460,19 @@ class RaggedRun:
             self.m = m + mis
             self.nmut += 1
             return self.observe(tag)
+        if o == 'fillmax':
+            # an append that brings the number of stored rows to EXACTLY the largest value the index type can hold: legal
+            room = IDXMAX[self.indextype] - self.total()
+            if self.mode == 'r' or getattr(self, 'in_ctx', False) or not (0 < room <= 70000):
+                return True
+            x = gens.build_array(self.dt, (room,) + tuple(self.atom), {'m': 'safe', 's': op['seed']})
+            self.kinds.append('append')
+            self.out.cls('append-fills-index-type-exactly')
+            if not self.expect_ok('append:fill-to-index-max', lambda: ra.append(x)):
+                return False
+            self.m = m + [model_item(x, self.dt)]
+            self.nmut += 1
+            return self.observe('append:fill-to-index-max')
         if o == 'iterappend2d':
             # the iterable is ONE numeric ndarray whose rows (first axis) are the subarrays: k subarrays of n values each
             if self.mode == 'r':
